@@ -16,7 +16,8 @@
 (*           values (integers x 1e6), global call numbers                  *)
 (*   ceiling the object(s) the noise-ceiling function was called with and  *)
 (*           the two values it returned                                    *)
-(*   result  Result.evaluations / noise_ceiling (x 1e6) and dof            *)
+(*   result  Result.evaluations / noise_ceiling (x 1e6) and dof; for the   *)
+(*           test-set routines the numbers of held-out groups per sample   *)
 (* The trace must be explained by the protocol actions: Draw and MakeSets  *)
 (* are taken with the logged outcomes, Fit / Compare / Ceiling must produce*)
 (* exactly the logged objects, TooSmall / Predict / Store are silent; at   *)
@@ -161,12 +162,18 @@ TStep ==
               THEN /\ Aggregate
                    /\ LET badcells == {k \in 1..NKeys(rc) : CellBad(k, e.cells[k])}
                           badnc == IF StoresNc(rc) THEN {k \in 1..NNcKeys(rc) : NcBad(k, e.nc[k])} ELSE {}
-                          dofbad == rc.routine # "crossval" /\ e.dof # DofOf(rc)
+                          dofbad == rc.routine \notin {"crossval", "testset"} /\ e.dof # DofOf(rc)
+                          \* test-set routines also return the number of held-out groups per sample
+                          ntestbad == rc.routine = "testset" /\
+                                      (\/ Len(e.ntest) # rc.N
+                                       \/ \E i \in 1..rc.N :
+                                             \/ rc.bootR /\ e.ntest[i][1] # Len(TestGroupsR(rc, log[i].d))
+                                             \/ rc.bootP /\ e.ntest[i][2] # Len(TestGroupsP(rc, log[i].d)))
                       IN /\ (dofbad => PrintT(ToJson([dofbad |-> tid, expected |-> DofOf(rc), logged |-> e.dof])))
-                         /\ IF badcells = {} /\ badnc = {} /\ Len(e.cells) = NKeys(rc)
+                         /\ IF badcells = {} /\ badnc = {} /\ Len(e.cells) = NKeys(rc) /\ ~ntestbad
                             THEN PrintT(ToJson([accept |-> tid])) /\ l' = l + 1
                             ELSE /\ PrintT(ToJson([reject |-> tid, l |-> l,
-                                                   why |-> IF badcells # {} THEN "stored" ELSE "nc-stored",
+                                                   why |-> IF badcells # {} THEN "stored" ELSE IF ntestbad THEN "ntest" ELSE "nc-stored",
                                                    extra |-> [cells |-> badcells, nc |-> badnc,
                                                               first |-> IF badcells # {}
                                                                         THEN LET k == CHOOSE kk \in badcells : \A k2 \in badcells : kk <= k2 IN
